@@ -807,53 +807,44 @@ func ruleRootMappedPathsAreNotPatterns(c *Ctx, rule string) {
 
 // ruleSegmentsAreBuiltFromParsedPieces — C01.R18 / C05.R14: a segment object describes exactly one piece of a parsed
 // pattern: literal text, or one parameter followed by its literal suffix. Segment.Match relies on it — for a
-// parameter segment it never looks at text in front of the `{`. The segment constructor is therefore only handed
-// (a) a piece the splitter cut out of a pattern (an element of splitString's result) or (b) a part of an existing
-// segment's own text (Segment.Split). Text assembled in any other way (two nodes' texts concatenated to merge them)
-// can put literal text in front of a parameter: the merged node matches every path, whatever its head says.
+// parameter segment it never looks at text in front of the `{`. The segment constructor is handed pieces the
+// splitter cut out of a pattern and parts of an existing segment's own text (Segment.Split); it is never handed text
+// *assembled* from parts (two nodes' texts concatenated to merge them, Join, Sprintf): that can put literal text in
+// front of a parameter, and the merged node matches every path, whatever its head says.
 func ruleSegmentsAreBuiltFromParsedPieces(c *Ctx, rule string) {
 	c.R.Rule(c.R.Property+"."+rule, 2, "the segment constructor only receives pieces cut by the splitter or parts of an existing segment's text")
 	ctor := c.P.MustFunc("syntax.(*Interceptors).NewSegment")
-	var okArg func(v ssa.Value, depth int) bool
-	okArg = func(v ssa.Value, depth int) bool {
+	// assembled: the text is put together from parts (concatenation, Join, Sprintf, a builder) — through phis and
+	// through the parameters of forwarding helpers
+	var assembled func(v ssa.Value, depth int) bool
+	assembled = func(v ssa.Value, depth int) bool {
 		if depth > 3 {
 			return false
 		}
 		switch x := v.(type) {
-		case *ssa.Const:
-			return true // the root's empty text
-		case *ssa.Slice:
-			return strings.HasSuffix(an.AP(x.X), ".Value") // a part of a segment's own text
-		case *ssa.UnOp:
-			// an element of the splitter's result: load of IndexAddr(result-of-call, i)
-			if ia, ok := x.X.(*ssa.IndexAddr); ok && x.Op == token.MUL {
-				if call, isCall := ia.X.(*ssa.Call); isCall {
-					g := an.StaticCallee(&call.Call)
-					return g != nil && strings.HasPrefix(an.FuncKey(g), "syntax.")
-				}
+		case *ssa.BinOp:
+			return x.Op == token.ADD
+		case *ssa.Call:
+			switch n := an.CalleeName(&x.Call); {
+			case n == "strings.Join", strings.HasPrefix(n, "fmt.Sprint"), n == "strings.(*Builder).String", n == "strings.Repeat", n == "strings.Replace", n == "strings.ReplaceAll":
+				return true
 			}
 		case *ssa.Phi:
 			for _, e := range x.Edges {
-				if !okArg(e, depth+1) {
-					return false
+				if assembled(e, depth+1) {
+					return true
 				}
 			}
-			return len(x.Edges) > 0
 		case *ssa.Parameter:
-			// a helper that forwards its argument: every call site hands it an acceptable text
-			args := argsOfParam(x)
-			if len(args) == 0 {
-				return false
-			}
-			for _, a := range args {
-				if !okArg(a, depth+1) {
-					return false
+			for _, a := range argsOfParam(x) {
+				if assembled(a, depth+1) {
+					return true
 				}
 			}
-			return true
 		}
 		return false
 	}
+	okArg := func(v ssa.Value, _ int) bool { return !assembled(v, 0) }
 	n := 0
 	for _, f := range c.libFuncs() {
 		an.AllInstrs(f, func(in ssa.Instruction) {
@@ -863,7 +854,7 @@ func ruleSegmentsAreBuiltFromParsedPieces(c *Ctx, rule string) {
 			}
 			n++
 			good := okArg(call.Args[1], 0)
-			c.R.Add(rule, c.fk(f), "call:NewSegment/text="+c.O.Of(call.Args[1]).String(), c.pos(in), good, ifelse(good, "a piece cut by the splitter, or a part of a segment's own text", "a segment is built from "+c.O.Of(call.Args[1]).String()+", text that is neither a piece the splitter cut out of a pattern nor a part of one segment's text: literal text that ends up in front of a parameter is never compared with the request (the parameter's matcher starts at the `{`), so the node matches paths whose head differs"))
+			c.R.Add(rule, c.fk(f), "call:NewSegment/text="+c.O.Of(call.Args[1]).String(), c.pos(in), good, ifelse(good, "not assembled from parts", "a segment is built from "+c.O.Of(call.Args[1]).String()+", text assembled from parts instead of a piece the splitter cut out of a pattern or a part of one segment's text: literal text that ends up in front of a parameter is never compared with the request (the parameter's matcher starts at the `{`), so the node matches paths whose head differs"))
 		})
 	}
 	_ = n
@@ -910,6 +901,170 @@ func ruleResponseHeadersAreNotWiped(c *Ctx, rule string) {
 				return
 			}
 			c.R.Add(rule, c.fk(f), "wipes:"+what, c.pos(in), false, "library code removes response headers by a key it does not name ("+what+"): the CORS grant written before the handler ran (Access-Control-Allow-Origin, -Credentials, Expose-Headers, Vary) is removed with them — the answer of an allowed request leaves without it")
+		})
+	}
+}
+
+// ruleSummaryReadOnlyOfLiveNodes — C04.R15 / C03.R16: the method summary of a node is kept current only while the node
+// has handlers: when Remove drops the whole handler map the summary is left as it was (the node is neither matched
+// nor listed), and with a TRACE handler configured it is non-zero even for an emptied node. Code that walks the tree
+// (a node method that calls itself on the children) therefore reads a node's summary only behind "this node has
+// handlers"; a walk that trusts the summary of every node counts the methods of routes that were removed — OPTIONS *
+// keeps naming a method no live route has.
+func ruleSummaryReadOnlyOfLiveNodes(c *Ctx, rule string) {
+	a := c.A
+	c.R.Rule(c.R.Property+"."+rule, 0, "a walk over the tree reads a node's method summary only when the node has handlers")
+	for _, f := range c.libFuncs() {
+		if f.Signature.Recv() == nil || !isPtrToNamed(f.Signature.Recv().Type(), a.NodeT) || !strings.HasPrefix(an.FuncKey(f), a.TreePkg.Name()+".") {
+			continue
+		}
+		walker := false
+		an.AllInstrs(f, func(in ssa.Instruction) {
+			if call := an.CallOf(in); call != nil {
+				if g := an.StaticCallee(call); g != nil && an.Origin(g) == an.Origin(f) && len(call.Args) > 0 && strings.HasPrefix(an.AP(call.Args[0]), "recv."+a.FChildren) {
+					walker = true
+				}
+			}
+		})
+		if !walker {
+			continue
+		}
+		an.AllInstrs(f, func(in ssa.Instruction) {
+			ld, ok := in.(*ssa.UnOp)
+			if !ok || ld.Op != token.MUL {
+				return
+			}
+			base, isSum := fieldLoadOf(ld, a.NodeT, a.FSummary)
+			if !isSum || base != "recv" {
+				return
+			}
+			dom := an.DominatedByEdge(in, func(b *ssa.BasicBlock, succ int) bool {
+				return lenPositiveTermEdge(c, b, succ, "recv."+a.FHandlers)
+			})
+			c.R.Add(rule, c.fk(f), "walk/reads:"+a.FSummary+"/behind:has-handlers", c.pos(in), dom, ifelse(dom, "the summary is read for a node with handlers", "a walk over the tree reads the method summary of every node, also of nodes without handlers: the summary of an emptied node is stale (Remove does not rebuild it, and it carries the TRACE bit when TRACE is configured), so methods of removed routes are still counted — OPTIONS * and Routes() name what no live route serves"))
+		})
+	}
+}
+
+// ruleChainWalkEndsAtTheRoot — C10.R14: strict URL building writes the texts of the nodes from the root down to the
+// node found. The chain is what the parent links say it is: the walk `curr = curr.parent` stops because it reached
+// the root (a nil parent, or the root node itself) — not because a stored count ran out. A count kept in the nodes
+// (a depth) is a second copy of the tree's shape that a split of an ancestor leaves stale below the split node: the
+// built URL silently loses its head.
+func ruleChainWalkEndsAtTheRoot(c *Ctx, rule string) {
+	a := c.A
+	c.R.Rule(c.R.Property+"."+rule, 0, "the walk from the node found up to the root ends when it reaches the root")
+	f := a.TreeURL
+	for _, g := range builderCluster(c, f) {
+		if !strings.HasPrefix(an.FuncKey(g), a.TreePkg.Name()+".") {
+			continue
+		}
+		an.AllInstrs(g, func(in ssa.Instruction) {
+			phi, ok := in.(*ssa.Phi)
+			if !ok || !isPtrToNamed(phi.Type(), a.NodeT) {
+				return
+			}
+			// curr = φ(start, curr.parent)
+			up := false
+			for _, e := range phi.Edges {
+				if ld, isLd := e.(*ssa.UnOp); isLd && ld.Op == token.MUL {
+					if fa, isFA := ld.X.(*ssa.FieldAddr); isFA && fa.X == ssa.Value(phi) && an.FieldName(fa.X.Type(), fa.Field) == a.FParent {
+						up = true
+					}
+				}
+			}
+			if !up {
+				return
+			}
+			// the loop's exit test looks at the walker (curr, or curr.parent) — compared with nil or with the root
+			hdr := phi.Block()
+			var cond ssa.Value
+			if len(hdr.Instrs) > 0 {
+				if br, isIf := hdr.Instrs[len(hdr.Instrs)-1].(*ssa.If); isIf {
+					cond = br.Cond
+				}
+			}
+			good := false
+			if cond != nil {
+				var mentions func(v ssa.Value, depth int) bool
+				mentions = func(v ssa.Value, depth int) bool {
+					if depth > 4 {
+						return false
+					}
+					if v == ssa.Value(phi) {
+						return true
+					}
+					switch x := v.(type) {
+					case *ssa.BinOp:
+						return mentions(x.X, depth+1) || mentions(x.Y, depth+1)
+					case *ssa.UnOp:
+						return mentions(x.X, depth+1)
+					case *ssa.FieldAddr:
+						return mentions(x.X, depth+1)
+					case *ssa.Phi:
+						for _, e := range x.Edges {
+							if e != v && mentions(e, depth+1) {
+								return true
+							}
+						}
+					}
+					return false
+				}
+				good = mentions(cond, 0)
+			}
+			c.R.Add(rule, c.fk(g), "walk:"+a.FParent+"-chain/ends-at-the-root", c.pos(in), good, ifelse(good, "the walk up the parent links stops on a test of the node reached", "the walk up the parent links is bounded by something other than the node it has reached (a stored depth or count): that is a second copy of the tree's shape, stale for the nodes below a split — the built URL loses the text of the nodes the count does not cover, without an error"))
+		})
+	}
+}
+
+// ruleAdjacencyIsDecidedOnTheText — C10.R15 / C05.R15: "two parameters may not be adjacent" is a property of the
+// pattern's text — a piece that ends with '}' followed by a piece that begins with '{'. The parser's flag that
+// carries "the previous piece ended with '}'" round its loop is computed from the piece (its last byte), not from a
+// field of the segment built from it: the segment kinds record "ends with '}'" (Endpoint) for named and interceptor
+// parameters only, so a flag taken from there lets `{id:\d+}{page}` through — the pattern is malformed, yet URL
+// building and registration accept it.
+func ruleAdjacencyIsDecidedOnTheText(c *Ctx, rule string) {
+	c.R.Rule(c.R.Property+"."+rule, 0, "adjacent parameters are detected on the text of the pieces")
+	f := c.P.MustFunc("syntax.(*Interceptors).Split")
+	for _, g := range builderCluster(c, f) {
+		if !strings.HasPrefix(an.FuncKey(g), "syntax.") {
+			continue
+		}
+		an.AllInstrs(g, func(in ssa.Instruction) {
+			phi, ok := in.(*ssa.Phi)
+			if !ok || !isBoolType(phi.Type()) || !strings.Contains(phi.Block().Comment, "loop") {
+				return
+			}
+			// the flag is the one tested together with "this piece begins with '{'"
+			tested := false
+			for _, ref := range *phi.Referrers() {
+				br, isIf := ref.(*ssa.If)
+				if !isIf {
+					continue
+				}
+				for _, succ := range br.Block().Succs {
+					for _, x := range succ.Instrs {
+						if bo, isBin := x.(*ssa.BinOp); isBin && bo.Op == token.EQL {
+							if k, isK := bo.Y.(*ssa.Const); isK && an.ConstKey(k) == "123" {
+								tested = true
+							}
+						}
+					}
+				}
+			}
+			if !tested {
+				return
+			}
+			for _, e := range phi.Edges {
+				if _, isK := e.(*ssa.Const); isK {
+					continue
+				}
+				t := c.O.Of(e).String()
+				fromSegment := strings.Contains(t, ".Endpoint") || strings.Contains(t, ".Type") || strings.Contains(t, ".Suffix")
+				fromText := strings.Contains(t, "125")
+				good := fromText && !fromSegment
+				c.R.Add(rule, c.fk(g), "loop-flag:previous-piece-ends-with-brace/from-the-text", c.pos(in), good, ifelse(good, "the flag is the last byte of the piece compared with '}'", "the flag that says the previous piece ended with '}' is "+t+", not the last byte of the piece: a segment records that for named and interceptor parameters only, so a regexp parameter directly followed by another parameter (`{id:\\d+}{page}`) is not reported as adjacent and the malformed pattern is accepted"))
+			}
 		})
 	}
 }
